@@ -265,7 +265,6 @@ func (h *hist) resetLine(a, b *hx.Node, blk *hg.Block, frm *hg.Frame) string {
 	return sb.String()
 }
 
-
 // validator-set history of a reset node vs full-history nodes (C13)
 func (h *hist) resetPeerSetOracle(a *hx.Node) {
 	if !a.WasReset {
